@@ -12,6 +12,7 @@ import vhelp
 NAME = "c_ty_name"
 ENGINE = "verus"
 PROPERTIES = {"C01": "C declaration spells every type position with the pointer-vs-by-value choice and const-ness of the compiled Rust signature (opaque => pointer, const iff shared borrow; everything else by value), recursively through Option",
+              "C13": "naming an opaque / struct / enum that is disabled for the backend pushes the 'Found usage of disabled type' diagnostic",
               "C15": "gen_ty_name's unreachable! arms are dead for the types that reach it (everything except callbacks, which gen_ty_decl handles before)"}
 F = "tool/src/c/ty.rs"
 
@@ -62,17 +63,19 @@ pub enum CTy {
 #[verifier::external_body] pub struct Attrs2 { x: u8 }
 pub struct AttrsV { pub disable: bool }
 pub struct DefView { pub a: AttrsV }
-impl DefView { pub fn attrs(&self) -> &AttrsV { &self.a } }
+impl DefView { pub fn attrs(&self) -> (r: &AttrsV) ensures *r == self.a { &self.a } }
 pub struct TraitDefView { pub attrs: AttrsV }
 #[verifier::external_body] pub struct Tcx { x: u8 }
+pub uninterp spec fn disabled_in(tcx: &Tcx, id: TypeId) -> bool;
 impl Tcx {
-    #[verifier::external_body] pub fn resolve_type(&self, id: TypeId) -> &DefView { unimplemented!() }
+    #[verifier::external_body] pub fn resolve_type(&self, id: TypeId) -> (r: &DefView) ensures r.a.disable == disabled_in(self, id) { unimplemented!() }
     #[verifier::external_body] pub fn resolve_trait(&self, id: TraitId) -> &TraitDefView { unimplemented!() }
 }
-#[verifier::external_body] pub struct ErrorStore { x: u8 }
+// tool::ErrorStore (RefCell inside): modelled by an explicit count on &mut
+pub struct ErrorStore { pub n: usize }
 #[verifier::external_body] pub struct Msg { x: u8 }
 #[verifier::external_body] pub fn __msg() -> Msg { unimplemented!() }
-impl ErrorStore { #[verifier::external_body] pub fn push_error(&self, m: Msg) { unimplemented!() } }
+impl ErrorStore { #[verifier::external_body] pub fn push_error(&mut self, m: Msg) ensures final(self).n == old(self).n + 1 { unimplemented!() } }
 #[verifier::external_body] pub struct Path { x: u8 }
 #[verifier::external_body] pub struct Includes { x: u8 }
 impl Includes { #[verifier::external_body] pub fn insert(&mut self, p: Path) -> bool { unimplemented!() } }
@@ -94,7 +97,7 @@ impl CTy {
     pub fn into_owned(self) -> (r: CTy) ensures r == self { self }
     pub fn into(self) -> (r: CTy) ensures r == self { self }
 }
-pub struct TyGenContext<'a> { pub formatter: &'a CFormatter, pub tcx: &'a Tcx, pub errors: &'a ErrorStore }
+pub struct TyGenContext<'a> { pub formatter: &'a CFormatter, pub tcx: &'a Tcx, pub errors: ErrorStore }
 
 // ---- oracle, from the property statement: pointer-vs-by-value and const-ness of the compiled Rust signature
 pub open spec fn cty(t: Type) -> CTy decreases t {
@@ -111,6 +114,10 @@ pub open spec fn cty(t: Type) -> CTy decreases t {
         Type::ImplTrait(t) => CTy::Named(SymbolId::TraitId(t.tcx_id)),
         Type::Callback(_) => arbitrary(),
     }
+}
+// the user type a spelling names directly (opaque / struct / enum)
+pub open spec fn named_id(t: Type) -> Option<TypeId> {
+    match t { Type::Opaque(o) => Some(TypeId { n: o.tcx_id.n }), Type::Struct(s) => Some(s.tcx_id), Type::Enum(e) => Some(TypeId { n: e.tcx_id.n }), _ => None }
 }
 pub open spec fn no_callback(t: Type) -> bool decreases t {
     match t { Type::Callback(_) => false, Type::DiplomatOption(inner) => no_callback(*inner), _ => true }
@@ -138,9 +145,14 @@ def build(tier):
     p.sub("E14", r"\(ref (\w+)\)", r"(\1)", count=None, why="`ref x` under default binding modes")
     p.sub("E14", r"Type::Primitive\(prim\) => self\.formatter\.fmt_primitive_as_c\(prim\)", "Type::Primitive(prim) => self.formatter.fmt_primitive_as_c(*prim)", count=1, why="binding is a reference now")
     p.fn("E5", rule_panics, why="unreachable! arms become obligations")
+    p.sub("E3", r"\(&self, ty: &Type", "(&mut self, ty: &Type", count=1, why="tool::ErrorStore's interior mutability (RefCell) modelled as &mut with an explicit count")
+    p.sub("E3", r"self\.errors\s*\.push_error\(", "self.errors.push_error(", count=None, why="same")
     p.contract(f"""        requires no_callback(*ty),
         ensures {CANARY}
             r == cty(*ty),
+            // C13: naming a type that is disabled for the backend is reported, never silent
+            final(self).errors.n >= old(self).errors.n, final(self).tcx == old(self).tcx,
+            match named_id(*ty) {{ Some(id) => disabled_in(old(self).tcx, id) ==> final(self).errors.n > old(self).errors.n, None => true }},
         decreases *ty,""", ret_name="r")
     vf.add_piece(p, expected="gen_ty_name")
     vf.add("}\n")
@@ -155,4 +167,4 @@ ASSUMPTIONS = [
     "precondition: no Callback in the type (gen_ty_decl handles callbacks before calling gen_ty_name: read)",
     "E14: `match *ty { .. (ref x) .. }` rewritten to matching on the reference (same arms, default binding modes)",
 ]
-UNVERIFIED = {"C01": ["gen_ty_decl (callback structs) and the struct/method templates that print the names (read)"], "C15": []}
+UNVERIFIED = {"C01": ["gen_ty_decl (callback structs) and the struct/method templates that print the names (read)"], "C15": [], "C13": []}
